@@ -439,7 +439,7 @@ RULE = ('every cell of the grid: compiler value == Lean model value for sizeof/a
         'trivially copyable or declaring element type, or N at a size_type boundary')
 
 def run(ctx):
-    ok = ctx.lean(['AmcVerif.Props.C17'], need_driver=False)
+    ok = ctx.lean(['AmcVerif.Props.C17', 'AmcVerif.Props.C17b'], need_driver=False, extra_modules=['AmcVerif.Bridge.TraitsBridge'])
     cfgs = grid(ctx.tier, widen=not ok)
     ctx.coverage['rule'] = RULE
     ctx.coverage['grid'] = [dict(std=c['std'], compiler=c['compiler'], element_types=len(c['types']), N=c['ns'], size_type_bytes=c['sts'])
